@@ -720,12 +720,44 @@ def opRotShift (args : List String) : Option String := do
   | _ => none
 end ScatMatOps
 
+/-! ### C09 scattering functions (complex doubles) -/
+section ScatFnOps
+open Arim.ScatFn
+
+def sTrig : STrig CF := { sin := CF.sin, cos := CF.cos, ofNat := fun n => CF.ofReal n.toFloat, pi := CF.ofReal Arim.Num.pi,
+                          sqrtI := ⟨Float.sqrt 0.5, Float.sqrt 0.5⟩, zero := ⟨0, 0⟩ }
+
+def cfList? (s : String) : Option (List CF) := do
+  let l ← floatList? s
+  let rec go (l : List Float) (acc : List CF) : Option (List CF) :=
+    match l with
+    | [] => some acc.reverse
+    | re :: im :: r => go r (⟨re, im⟩ :: acc)
+    | _ => none
+  go l []
+
+/-- `sdh <alpha> <beta> <maxn> <aLL re,im,...> <x ...> <bTT ...> <inc list> <out list>` → LL;LT;TL;TT per query -/
+def opSdh (args : List String) : Option String := do
+  match args with
+  | [al, be, mx, a, x, b, incs, outs] =>
+    let al ← float? al; let be ← float? be; let mx ← nat? mx
+    let a ← cfList? a; let x ← cfList? x; let b ← cfList? b
+    let incs ← floatList? incs; let outs ← floatList? outs
+    let arr := fun (l : List CF) (n : Nat) => l.toArray.getD n ⟨0, 0⟩
+    let k : SdhCoef CF := { alpha := CF.ofReal al, beta := CF.ofReal be, maxn := mx, aLL := arr a, x := arr x, bTT := arr b }
+    pure (join ((incs.zip outs).map (fun (i, o) =>
+      let i := CF.ofReal i; let o := CF.ofReal o
+      join [showCF (sdhLL sTrig k i o), showCF (sdhLT sTrig k i o), showCF (sdhTL sTrig k i o), showCF (sdhTT sTrig k i o)] ";")) "|")
+  | _ => none
+end ScatFnOps
+
 def route (op : String) (args : List String) : String :=
   let r : Option String :=
     match op with
     | "fermat" => opFermat args
     | "minplus" => opMinPlus args
     | "chunks" => opChunks args
+    | "sdh" => opSdh args
     | "scatinterp" => opScatInterp args
     | "scatangles" => opScatAngles args
     | "freqinterp" => opFreqInterp args
